@@ -106,15 +106,20 @@ def install_main_classes():
 
 
 class DSub(DirectedEdge):
-    pass
+    """a user edge class whose instances are FALSY (a weighted edge that is false at weight 0 ...)"""
+    def __bool__(self):
+        return False
 
 
 class USub(UnDirectedEdge):
-    pass
+    """... or an attribute-bag edge that is empty"""
+    def __len__(self):
+        return 0
 
 
 class Other(TwoEndedLink):
-    pass
+    def __bool__(self):
+        return False
 
 
 KIND_CLS = {"KVertex": Vertex, "KVertexSub": VSub, "KUniverse": Universe, "KDir": DirectedEdge, "KDirSub": DSub,
